@@ -30,7 +30,7 @@ const shim = "verif/vs"
 // package-level functions redirected to the runtime
 var redirect = map[string]string{
 	"time.After": "After", "time.Sleep": "Sleep", "time.Now": "Now", "time.Since": "Since", "time.Until": "Until",
-	"time.NewTimer": "NewTimer", "time.AfterFunc": "AfterFunc",
+	"time.NewTimer": "NewTimer", "time.AfterFunc": "AfterFunc", "time.NewTicker": "NewTicker",
 	"context.WithCancel": "WithCancel", "context.WithTimeout": "WithTimeout", "context.WithDeadline": "WithDeadline",
 	"os/signal.NotifyContext": "NotifyContext", "runtime.NumCPU": "NumCPU", "os.Exit": "Exit",
 	"math/rand.Int63": "RandInt63", "math/rand.Intn": "RandIntn", "math/rand.Uint32": "RandUint32",
@@ -40,7 +40,7 @@ var redirect = map[string]string{
 
 // constructs with no model: their use anywhere in the module is an infrastructure error
 var unsupported = map[string]bool{
-	"time.NewTicker": true, "time.Tick": true, "sync.NewCond": true, "reflect.Select": true,
+	"time.Tick": true, "sync.NewCond": true, "reflect.Select": true,
 	"os/signal.Notify": true, "context.WithCancelCause": true, "context.AfterFunc": true,
 	"math/rand.New": true, "math/rand.Perm": true, "math/rand.Shuffle": true, "math/rand.Float64": true,
 	"math/rand.Int31": true, "math/rand.Float32": true, "math/rand.NormFloat64": true, "math/rand.ExpFloat64": true,
@@ -129,7 +129,9 @@ func (r *rw) premark(f *ast.File) {
 				switch tn.Pkg().Path() + "." + tn.Name() {
 				case "time.Timer":
 					r.marks[x] = "type:Timer"
-				case "time.Ticker", "sync.Cond":
+				case "time.Ticker":
+					r.marks[x] = "type:Ticker"
+				case "sync.Cond":
 					r.fail(x, "type %s.%s has no model", tn.Pkg().Path(), tn.Name())
 				}
 			}
@@ -391,6 +393,10 @@ func (r *rw) file(f *ast.File) {
 			if r.marks[x] == "type:Timer" {
 				r.used = true
 				c.Replace(sel("Timer"))
+			}
+			if r.marks[x] == "type:Ticker" {
+				r.used = true
+				c.Replace(sel("Ticker"))
 			}
 		case *ast.SendStmt:
 			c.Replace(&ast.ExprStmt{X: method(x.Chan, "Send", x.Value)})
